@@ -183,6 +183,7 @@ impl Scenario for Token {
         v.push(increase_allowance(DAVE, DAVE, t, 5, None));
         v.push(increase_allowance(DAVE, EVE, t, 5, None));
         v.push(decrease_allowance(ALICE, DAVE, t, 1, None));
+        v.push(decrease_allowance(ALICE, DAVE, t, 1, Some(json!({ "at_height": now_h + 1 }))));
         v.push(decrease_allowance(ALICE, DAVE, t, 5, Some(json!({ "at_height": now_h + 1 }))));
         v.push(decrease_allowance(DAVE, ALICE, t, 1, None));
         for a in [0u128, 1, 2, 3] {
@@ -255,6 +256,19 @@ impl Scenario for Token {
                             }
                         }
                     }
+                }
+            }
+        }
+        // ... and that refresh is real: right after a transaction that burnt tokens the State query's rates are
+        // bond / (supply + pending requests) for the supplies as they are now
+        if fx.iter().any(|e| matches!(e, Fx::Exec { contract: c2, msg: m, .. } if c2 == t && (m.get("burn").is_some() || m.get("burn_from").is_some()))) {
+            let ho = crate::obs::HubObs::new(_post);
+            if ho.delegated > 0 && ho.books() > 0 {
+                cx.trigger("c18_rates_after_burn_checked");
+                let eb = crate::hubcore::expected_rate(ho.state.total_bond_bsei_amount.u128(), ho.b_claims());
+                let es = crate::hubcore::expected_rate(ho.state.total_bond_stsei_amount.u128(), ho.st_claims());
+                if eb != ho.state.bsei_exchange_rate || es != ho.state.stsei_exchange_rate {
+                    cx.viol("C18.burn_refresh", format!("exchange rates not refreshed after a {} burn", t), format!("{}: reported b {} st {} expected b {} st {}", a.label, ho.state.bsei_exchange_rate, ho.state.stsei_exchange_rate, eb, es));
                 }
             }
         }
